@@ -6,7 +6,9 @@ open DendroModel DendroModel.C13
   `op schema cfg nstitle nslabels existing coll tree label tail tok tok …`
   op ∈ blocks | list | tree | yield | dataset;  schema ∈ newick | nexus
   cfg = rooting char (n u r U R = None, default-unrooted, default-rooted, force-unrooted, force-rooted) followed by
-        four 0/1 flags: store_tree_weights, suppress_internal_node_taxa, suppress_leaf_node_taxa, suppress_edge_lengths
+        four 0/1 flags: store_tree_weights, suppress_internal_node_taxa, suppress_leaf_node_taxa, suppress_edge_lengths,
+        optionally followed by two more: exclude_chars, attached namespace (default 1 0, what TreeList.get/Tree.get use;
+        `yield` always attaches, `dataset` never excludes, as the code does)
   nstitle = string field; nslabels, tail = comment-list field (`.` empty, else comma separated string fields)
   existing = number of placeholder trees (list) / blocks (dataset) already in the target; coll, tree = `-` or integer
   label = string field (`-` = no label= argument);  tok = `text|quoted|eof|comments`
@@ -30,17 +32,24 @@ def parseTok (w : String) : Option Tok :=
     | _, _, _, _ => none
   | _ => none
 
-def parseCfg (s : String) : Option Cfg :=
+def parseCfg (s : String) : Option (Cfg × Flags) :=
   match s.toList with
-  | [r, a, b, c, d] =>
+  | r :: a :: b :: c :: d :: rest =>
     let rooting : Option Rooting := match r with
       | 'n' => some .none | 'u' => some .defU | 'r' => some .defR | 'U' => some .forceU | 'R' => some .forceR
       | _ => none
+    -- optional 6th/7th flag: exclude_chars, attached namespace (defaults: what TreeList.get / Tree.get run with)
+    let flags : Option Flags := match rest with
+      | [] => some {}
+      | [x, t] => match parseBit (String.singleton x), parseBit (String.singleton t) with
+        | some x, some t => some { excludeChars := x, attached := t }
+        | _, _ => none
+      | _ => none
     match rooting, parseBit (String.singleton a), parseBit (String.singleton b), parseBit (String.singleton c),
-          parseBit (String.singleton d) with
-    | some r, some a, some b, some c, some d =>
-      some { rooting := r, storeWeights := a, suppressInternalTaxa := b, suppressLeafTaxa := c, suppressLengths := d }
-    | _, _, _, _, _ => none
+          parseBit (String.singleton d), flags with
+    | some r, some a, some b, some c, some d, some fl =>
+      some ({ rooting := r, storeWeights := a, suppressInternalTaxa := b, suppressLeafTaxa := c, suppressLengths := d }, fl)
+    | _, _, _, _, _, _ => none
   | _ => none
 
 def parseOInt (s : String) : Option (Option Int) :=
@@ -84,27 +93,27 @@ def handle (ws : List String) : String :=
     let sch : Option Schema := if schema == "newick" then some .newick else if schema == "nexus" then some .nexus else none
     match sch, parseCfg cfg, decodeStr nstitle, parseStrList nslabels, existing.toNat?, parseOInt coll, parseOInt tree,
           decodeStr label, parseStrList tail, toks.mapM parseTok with
-    | some sch, some cfg, some title, some labels, some ex, some coll, some tree, some label, some tail, some toks =>
+    | some sch, some (cfg, fl), some title, some labels, some ex, some coll, some tree, some label, some tail, some toks =>
       let ns : NSObj := { labels := labels, title := title }
       match op with
       | "blocks" =>
-        match readBlocks sch cfg toks tail ns with
+        match readBlocks sch cfg fl toks tail ns with
         | .error e => jErr e
         | .ok (bs, ns') => answer ns' (jList (bs.map fun b => jList (b.map jTree)))
       | "list" =>
-        match listGet sch cfg toks tail ns ((List.range ex).map placeholder) coll tree with
+        match listGet sch cfg fl toks tail ns ((List.range ex).map placeholder) coll tree with
         | .error e => jErr e
         | .ok (l, ns') => answer ns' (jList (l.map jTree))
       | "tree" =>
-        match treeGet sch cfg toks tail ns coll tree label with
+        match treeGet sch cfg fl toks tail ns coll tree label with
         | .error e => jErr e
         | .ok (t, ns') => answer ns' (jTree t)
       | "yield" =>
-        match yieldFrom sch cfg toks tail ns with
+        match yieldFrom sch cfg fl toks tail ns with
         | .error e => jErr e
         | .ok (l, ns') => answer ns' (jList (l.map jTree))
       | "dataset" =>
-        match datasetRead sch cfg toks tail ns ((List.range ex).map fun i => [placeholder i]) with
+        match datasetRead sch cfg fl toks tail ns ((List.range ex).map fun i => [placeholder i]) with
         | .error e => jErr e
         | .ok (bs, ns') => answer ns' (jList (bs.map fun b => jList (b.map jTree)))
       | _ => "bad-op"
